@@ -237,6 +237,9 @@ def judge(module, trace, name, parallel=None, extra_env=None, parts=None):
         if extra_env:
             e.update(extra_env)
         fo = open(outp, "w")
+        # at most 12 judge processes at a time (each may take a few GB of heap)
+        while sum(1 for q in procs if q[0].poll() is None) >= 12:
+            time.sleep(0.5)
         pr = subprocess.Popen(["timeout", "1800", "tlc", "-workers", "1", "-metadir", metadir, "-cleanup",
                                "-noGenerateSpecTE", "-config", os.path.basename(cfgp), module + ".tla"],
                               cwd=SPEC, stdout=fo, stderr=subprocess.STDOUT, env=e)
